@@ -163,10 +163,11 @@ def run(tier):
             if cur is not None:
                 recs.append({"c": cur, "o": o})
             cur = lb_cases[int(e["id"].split("-")[1])]
-            o = {"stopped": False, "stuck": False, "probe_after": False, "pool_open": 0, "held_status": 0, "stop_ms": 0}
+            o = {"stopped": False, "stuck": False, "probe_after": False, "pool_open": 0, "held_status": 0, "stop_ms": 0, "panic": ""}
         elif e["ev"] == "stopped":
             o["stopped"] = True
             o["stop_ms"] = max(o["stop_ms"], e.get("ms", 0))
+            o["panic"] = o["panic"] or e.get("panic", "")
         elif e["ev"] == "stuck":
             o["stuck"] = True
         elif e["ev"] == "probe" and e.get("stopped"):
